@@ -8,7 +8,8 @@ class Where(Operation):
 
     def __call__(self, a, b, *, condition):
         self.variables = (a, b)
-        self.condition = np.asarray(condition, dtype=bool)
+        # own copy: the caller may re-use its condition array before back-propagation
+        self.condition = np.array(condition, dtype=bool, copy=True)
         return np.where(condition, a.data, b.data)
 
     def backward_var(self, grad, index, **kwargs):
